@@ -136,7 +136,12 @@ func runSignal(c sigCase) (what string, checks int) {
 				h.Add(sv)
 			}
 		case c.Batch == 1:
-			h.Add(svcs...)
+			// the caller keeps using its slice: what it writes there later must not reach the handler
+			mine := append([]service.Interface(nil), svcs...)
+			h.Add(mine...)
+			for i := range mine {
+				mine[i] = &svc{100 + i, oNil, log}
+			}
 		default:
 			for i := 0; i < len(svcs); i += c.Batch {
 				h.Add(svcs[i:min(i+c.Batch, len(svcs))]...)
@@ -300,14 +305,22 @@ func (c *fakeClock) After(d time.Duration) <-chan time.Time {
 }
 
 type fakeSchedule struct {
-	log *evlog
-	n   int64
+	log  *evlog
+	n    int64
+	zero bool // every second answer is exactly 0 ("due now"): still one After per refresh, still waits for the tick
+}
+
+func (s *fakeSchedule) dur(n int64) int64 {
+	if s.zero && n%2 == 0 {
+		return 0
+	}
+	return n * 1000
 }
 
 func (s *fakeSchedule) UntilNext(time.Time) time.Duration {
 	s.n++
-	s.log.add("until %d", s.n*1000)
-	return time.Duration(s.n * 1000)
+	s.log.add("until#%d %d", s.n, s.dur(s.n))
+	return time.Duration(s.dur(s.n))
 }
 
 type ctxKey struct{}
@@ -375,6 +388,8 @@ type refCase struct {
 	TickInFinal bool `json:"tick_during_final_refresh"`
 	// ShutdownInRefresh: Shutdown is called while the refresh of the last tick is still in progress.
 	ShutdownInRefresh bool `json:"shutdown_during_a_refresh"`
+	// ZeroDelays: the schedule answers 0 every second time.
+	ZeroDelays bool `json:"schedule_returns_zero"`
 }
 
 func runRefresh(c refCase) (what string, checks int) {
@@ -401,7 +416,7 @@ func runRefresh(c refCase) (what string, checks int) {
 		}
 		startCtx := context.WithValue(context.Background(), "which", "start")
 		clock := &fakeClock{log: log, now: time.Unix(1000, 0)}
-		sched := &fakeSchedule{log: log}
+		sched := &fakeSchedule{log: log, zero: c.ZeroDelays}
 		cons := &fakeCons{log: log, parent: startCtx}
 		refr := &fakeRefresher{log: log, outcomes: outcomes, parkAt: -1, gate: make(chan struct{})}
 		if c.TickInFinal && c.OnShutdown {
@@ -488,13 +503,13 @@ func runRefresh(c refCase) (what string, checks int) {
 			}
 			if wait {
 				until++
-				uAt, un := pos(fmt.Sprintf("until %d", until*1000))
-				aAt, an := pos(fmt.Sprintf("after %d", until*1000))
+				uAt, un := pos(fmt.Sprintf("until#%d %d", until, sched.dur(until)))
+				aAt, an := pos(fmt.Sprintf("after %d", sched.dur(until)))
 				if un != 1 {
 					return bad("the schedule was consulted %d times for the next delay, want exactly once", un)
 				}
 				if an != 1 {
-					return bad("After(%d) - the schedule's latest answer - was requested %d times, want exactly once", until*1000, an)
+					return bad("After(%d) - the schedule's latest answer - was requested %d times, want exactly once", sched.dur(until), an)
 				}
 				if !(refreshAt < uAt && uAt < aAt) {
 					return bad("the schedule must be consulted after the refresh and before waiting")
@@ -668,7 +683,7 @@ func TestRefresh(t *testing.T) {
 						if !onShut && ff {
 							continue
 						}
-						c := refCase{ticks, onShut, ff, nilOpt, onShut && (v+k)%2 == 1, false}
+						c := refCase{ticks, onShut, ff, nilOpt, onShut && (v+k)%2 == 1, false, (v+k)%5 == 2}
 						if k > 0 && (v+k)%3 == 0 {
 							c.TickInFinal, c.ShutdownInRefresh = false, true
 						}
@@ -676,7 +691,7 @@ func TestRefresh(t *testing.T) {
 						r.Eval(int64(n))
 						total++
 						if w != "" {
-							r.Violation(fmt.Sprintf("refresh:%v", c), fmt.Sprintf("RefreshWorker with tick outcomes (true=error) %v, RefreshOnShutdown=%v, final refresh fails=%v, optional fields nil=%v, tick during the final refresh=%v, Shutdown during a refresh=%v: %s", c.Ticks, c.OnShutdown, c.FinalFails, c.NilOpt, c.TickInFinal, c.ShutdownInRefresh, w), c)
+							r.Violation(fmt.Sprintf("refresh:%v", c), fmt.Sprintf("RefreshWorker with tick outcomes (true=error) %v, RefreshOnShutdown=%v, final refresh fails=%v, optional fields nil=%v, tick during the final refresh=%v, Shutdown during a refresh=%v, schedule returns 0=%v: %s", c.Ticks, c.OnShutdown, c.FinalFails, c.NilOpt, c.TickInFinal, c.ShutdownInRefresh, c.ZeroDelays, w), c)
 							if r.TooMany() {
 								r.Finish()
 								t.Fail()
@@ -691,7 +706,7 @@ func TestRefresh(t *testing.T) {
 	r.NontrivialN(total)
 	r.Count("scenarios", total)
 	r.Exhaustive(fmt.Sprintf("every sequence of 0..%d ticks x refresh outcome {nil, error} per tick, then Shutdown x RefreshOnShutdown x final outcome, then a late tick; with instrumented and with nil optional config fields; log checked after every injected event", maxTicks))
-	r.Sample(map[string]any{"case": refCase{[]bool{false, true}, true, true, false, false, false}, "expected_log": "until 1000 | after 1000 | new 1 | refresh ctx=1 | cancel 1 | until 2000 | after 2000 | new 2 | refresh ctx=2 | cancel 2 | handle refresh-error-1 | until 3000 | after 3000 | new 3 | refresh ctx=3 | cancel 3"})
+	r.Sample(map[string]any{"case": refCase{[]bool{false, true}, true, true, false, false, false, false}, "expected_log": "until#1 1000 | after 1000 | new 1 | refresh ctx=1 | cancel 1 | until#2 2000 | after 2000 | new 2 | refresh ctx=2 | cancel 2 | handle refresh-error-1 | until#3 3000 | after 3000 | new 3 | refresh ctx=3 | cancel 3"})
 	if r.Finish() > 0 {
 		t.Fail()
 	}
